@@ -54,8 +54,7 @@ def probes():
         add(op, INT, ab, "a %s b" % sym)
     add("and", ("bool",), ab, "a & b")
     add("or", ("bool",), ab, "a | b")
-    add("logand", ("bool",), ab, "a && b", shapes=(1,))
-    add("logor", ("bool",), ab, "a || b", shapes=(1,))
+    # (a && b, a || b lower to if-statements over a local, not to an expression: covered by whole programs)
     add("shl", INT, [("a", "K", False), ("b", "u32", False)], "a << b")
     add("shr", INT, [("a", "K", False), ("b", "u32", False)], "a >> b")
     for op, sym in (("eq", "=="), ("ne", "!="), ("lt", "<"), ("le", "<="), ("gt", ">"), ("ge", ">=")):
@@ -251,19 +250,24 @@ def run_probes(tools, opts_list=None):
 
 
 def write_table(rows):
+    """rows of the two profiles are merged: profile field 0 = desktop only, 1 = ES only, 2 = both"""
     out = ["From Coq Require Import List ZArith String.", "Import ListNotations.",
            "Require Import Naga.Glsl.Syntax.", "Open Scope string_scope.", "Open Scope Z_scope.", "",
-           "(* (operator, scalar kind of the first operand, shape 1..4, GLSL ES?, declared type of the result, template) *)",
-           "Definition table : list (string * string * nat * bool * gty * expr) := ["]
-    lines = []
-    seen = set()
+           "(* (operator, scalar kind of the first operand, shape 1..4, profile (0 desktop, 1 ES, 2 both),",
+           "    declared type of the result, template) *)",
+           "Definition table : list (string * string * nat * nat * gty * expr) := ["]
+    merged = {}
+    order = []
     for r in rows:
-        line = "  (%s, %s, %d%%nat, %s, %s,\n    %s)" % (coq_string(r["op"]), coq_string(r["kind"]), r["n"],
-                                                          "true" if r["es"] else "false", coq_ty(r["decl_ty"]),
-                                                          coq_expr(r["expr"]))
-        if line not in seen:
-            seen.add(line)
-            lines.append(line)
+        k = (r["op"], r["kind"], r["n"], coq_ty(r["decl_ty"]), coq_expr(r["expr"]))
+        if k not in merged:
+            merged[k] = set()
+            order.append(k)
+        merged[k].add(bool(r["es"]))
+    lines = []
+    for k in order:
+        prof = 2 if merged[k] == {True, False} else (1 if merged[k] == {True} else 0)
+        lines.append("  (%s, %s, %d%%nat, %d%%nat, %s,\n    %s)" % (coq_string(k[0]), coq_string(k[1]), k[2], prof, k[3], k[4]))
     out.append(";\n".join(lines))
     out.append("].")
     return "\n".join(out) + "\n", len(lines)
